@@ -135,14 +135,9 @@ Proof.
     split; [reflexivity|]. split.
     { intros bef befA Hb. cbn [expr_set_comments expr_comments b_comments b_start b_lparen b_token b_line b_rparen aset_before
                                ab_toks ab_lsfx ab_lines ab_rbefore ab_rsfx ab_sfx].
-      apply owned_empty_block; auto.
-      - apply csfx_zc.
-      - unfold lpos in *. lia.
-      - unfold bpos in *. lia.
-      - unfold bpos in *. lia.
-      - lia.
-      - apply csfx_after. unfold bpos, bend in *. lia.
-      - apply csfx_before; assumption. }
+      apply owned_empty_block; auto;
+        try apply csfx_zc; try (apply csfx_before; assumption); try apply csfx_after;
+        unfold lpos, lnend, bpos, bend in *; lia. }
     split; [apply rs_after; auto|]. split; [exact A4|]. split; [rewrite Hlen; cbn [length] in A6; lia|]. split; [lia|].
     split; [intros acc; rewrite Hcom, rev_csfx; reflexivity|].
     intros acb stmts_r. rewrite (Hrows acb stmts_r). cbn [group]. rewrite Esc. reflexivity.
